@@ -8,12 +8,11 @@ import Nstd.Callback.LemmasTie
   listener, visiting the emitter keys in ANY order (any permutation of the key list, hence also the address order of the
   real map) gives the same state.  Together with `destructor_invokes_no_slot` (PropsTie.lean: a destructor is one step that
   invokes nothing) the order of the visits is unobservable.
-  OPEN: the same for `~Emitter` over the signal keys (`delEmitter` with a permuted `sigKeys`).  What is needed: the step for
-  signal g (invalidate the frame `d.activation`, erase the pairs (g, ·) under `e` from the receivers' lists) commutes with the
-  step for g' — `setInvalid` at two frame ids commutes, `List.erase_comm` for the pairs, the fault cases keep `listeners`/`frames`
-  defined-ness; not proved yet.  The correspondence run compares the bookkeeping after every destructor (heap addresses give
-  varying orders; member-pointer order differs from insertion order whenever signals are connected in another order than
-  their addresses).
+  `dtor_emitter_order_irrelevant`: the same for `~Emitter` over the signal keys: the visit of a signal is a sequence of
+  elementary steps (`EOp`: set `invalidated` in one frame; erase one pair from one receiver's list under this emitter, or
+  fault when the receiver is gone), any two of which commute (`setInvalid` at two frames, `List.erase_comm`, different
+  receivers), so the visits commute and any permutation of the keys gives the same state.
+  The model's destructors are these visits in the order of the model's key lists (`delListener_via`, `delEmitter_via`).
 -/
 set_option linter.unusedSimpArgs false
 namespace Nstd.Callback
@@ -133,5 +132,189 @@ theorem dtor_listener_order_irrelevant (l : Nat) (st : State) (ks ks' : List Nat
 example : delListenerVia [0, 1] 0 (connect 1 0 0 0 (connect 0 0 0 0 State.fresh)) =
     delListenerVia [1, 0] 0 (connect 1 0 0 0 (connect 0 0 0 0 State.fresh)) :=
   dtor_listener_order_irrelevant 0 _ _ _ (List.Perm.swap 1 0 [])
+
+/-! ### `~Emitter` -/
+
+/-- `~Emitter` visiting the signal keys in the order `ks` -/
+def delEmitterVia (ks : List Nat) (e : Nat) (st : State) : State :=
+  match st.emitters e with
+  | none => st.faulted
+  | some em => (ks.foldl (delEmitterSig e em) st).setEmitter e none
+
+theorem setInvalid_comm (fs : List Frame) (a b : Nat) : setInvalid (setInvalid fs a) b = setInvalid (setInvalid fs b) a := by
+  induction fs with
+  | nil => rfl
+  | cons f fs ih =>
+    simp only [setInvalid]
+    by_cases ca : a = fs.length <;> by_cases cb : b = fs.length <;> simp [ca, cb, setInvalid, setInvalid_length, ih]
+
+theorem frameAt_setInvalid_isSome (fs : List Frame) (a b : Nat) : (frameAt (setInvalid fs a) b).isSome = (frameAt fs b).isSome := by
+  rw [frameAt_setInvalid]; cases frameAt fs b <;> rfl
+
+/-- two elementary steps of `~Emitter` … -/
+inductive EOp where
+  | inv (a : Nat)
+  | drop (e g : Nat) (sl : Slot)
+
+def EOp.run : EOp → State → State
+  | .inv a, st => invalidate st a
+  | .drop e g sl, st => dropSignal e g st sl
+
+theorem invalidate_eq (st : State) (a : Nat) :
+    invalidate st a = if (frameAt st.frames a).isSome then { st with frames := setInvalid st.frames a } else st.faulted := by
+  unfold invalidate; cases frameAt st.frames a <;> rfl
+
+theorem inv_inv_comm (st : State) (a b : Nat) : invalidate (invalidate st a) b = invalidate (invalidate st b) a := by
+  simp only [invalidate_eq]
+  by_cases ha : (frameAt st.frames a).isSome = true <;> by_cases hb : (frameAt st.frames b).isSome = true <;>
+    simp [ha, hb, frameAt_setInvalid_isSome, State.faulted, setInvalid_comm]
+
+theorem dropSignal_frames (e g : Nat) (st : State) (sl : Slot) : (dropSignal e g st sl).frames = st.frames := by
+  unfold dropSignal
+  by_cases hs : sl.state = .disconnected
+  · simp [hs]
+  · simp only [hs, if_false]; cases st.listeners sl.receiver <;> rfl
+
+theorem inv_drop_comm (st : State) (a e g : Nat) (sl : Slot) :
+    dropSignal e g (invalidate st a) sl = invalidate (dropSignal e g st sl) a := by
+  simp only [invalidate_eq, dropSignal_frames]
+  unfold dropSignal
+  by_cases hs : sl.state = .disconnected
+  · simp [hs]
+  · simp only [hs, if_false]
+    by_cases ha : (frameAt st.frames a).isSome = true
+    · simp only [ha, if_true]
+      cases st.listeners sl.receiver <;> rfl
+    · simp only [ha, if_false, Bool.false_eq_true]
+      show (match st.listeners sl.receiver with | none => _ | some li => _) = _
+      cases st.listeners sl.receiver <;> rfl
+
+theorem drop_drop_comm (st : State) (e g g' : Nat) (sl sl' : Slot) :
+    dropSignal e g' (dropSignal e g st sl) sl' = dropSignal e g (dropSignal e g' st sl') sl := by
+  unfold dropSignal
+  by_cases hs : sl.state = .disconnected <;> by_cases hs' : sl'.state = .disconnected <;> simp only [hs, hs', if_true, if_false]
+  by_cases hr : sl'.receiver = sl.receiver
+  · rw [hr]
+    cases hl : st.listeners sl.receiver with
+    | none => simp [State.faulted, hl]
+    | some li =>
+      simp only [setListener_listeners_self, setListener_setListener]
+      congr 3
+      funext e'
+      by_cases he : e' = e
+      · simp [he, List.erase_comm]
+      · simp [he]
+  · have hr' : ¬ sl.receiver = sl'.receiver := fun h => hr h.symm
+    cases hl : st.listeners sl.receiver with
+    | none =>
+      cases hl' : st.listeners sl'.receiver with
+      | none => simp [State.faulted, hl, hl']
+      | some li' => simp [State.faulted, State.setListener, hl, hl', hr, hr']
+    | some li =>
+      cases hl' : st.listeners sl'.receiver with
+      | none => simp [State.faulted, State.setListener, hl, hl', hr, hr']
+      | some li' =>
+        simp only [State.setListener, hr, hr', if_false, hl, hl', State.mk.injEq, and_true, true_and]
+        funext x
+        by_cases h1 : x = sl'.receiver
+        · subst h1; simp [hr]
+        · by_cases h2 : x = sl.receiver
+          · subst h2; simp [hr']
+          · simp [h1, h2]
+
+theorem eop_comm (p q : EOp) (e : Nat) (hp : ∀ e' g sl, p = .drop e' g sl → e' = e) (hq : ∀ e' g sl, q = .drop e' g sl → e' = e)
+    (st : State) : q.run (p.run st) = p.run (q.run st) := by
+  cases p with
+  | inv a =>
+    cases q with
+    | inv b => exact inv_inv_comm st a b
+    | drop e' g sl => exact inv_drop_comm st a e' g sl
+  | drop e1 g sl =>
+    cases q with
+    | inv b => exact (inv_drop_comm st b e1 g sl).symm
+    | drop e2 g' sl' =>
+      have h1 := hp _ _ _ rfl
+      have h2 := hq _ _ _ rfl
+      subst h1; subst h2
+      exact drop_drop_comm st _ g g' sl sl'
+
+def runOps' (ops : List EOp) (st : State) : State := ops.foldl (fun s op => op.run s) st
+
+theorem run_comm_one (p : EOp) (ops : List EOp) (hc : ∀ q ∈ ops, ∀ s, q.run (p.run s) = p.run (q.run s)) (st : State) :
+    runOps' ops (p.run st) = p.run (runOps' ops st) := by
+  induction ops generalizing st with
+  | nil => rfl
+  | cons q qs ih =>
+    simp only [runOps', List.foldl_cons]
+    rw [hc q (List.mem_cons_self ..) st]
+    exact ih (fun q' hq' => hc q' (List.mem_cons_of_mem _ hq')) _
+
+theorem run_comm (ps qs : List EOp) (hc : ∀ p ∈ ps, ∀ q ∈ qs, ∀ s, q.run (p.run s) = p.run (q.run s)) (st : State) :
+    runOps' qs (runOps' ps st) = runOps' ps (runOps' qs st) := by
+  induction ps generalizing st with
+  | nil => rfl
+  | cons p ps ih =>
+    simp only [runOps', List.foldl_cons]
+    have h1 := run_comm_one p qs (fun q hq s => hc p (List.mem_cons_self ..) q hq s) st
+    simp only [runOps'] at h1 ih
+    rw [← h1]
+    exact ih (fun p' hp' => hc p' (List.mem_cons_of_mem _ hp')) _
+
+/-- the elementary steps of the visit of signal `g` -/
+def sigOps (e : Nat) (em : Emitter) (g : Nat) : List EOp :=
+  match em.sig g with
+  | none => []
+  | some d => (match d.activation with | some a => [EOp.inv a] | none => []) ++ d.slots.map (fun sl => EOp.drop e g sl)
+
+theorem delEmitterSig_ops (e : Nat) (em : Emitter) (st : State) (g : Nat) :
+    delEmitterSig e em st g = runOps' (sigOps e em g) st := by
+  unfold delEmitterSig sigOps runOps'
+  cases em.sig g with
+  | none => rfl
+  | some d =>
+    simp only [List.foldl_append, List.foldl_map]
+    cases d.activation <;> rfl
+
+theorem sigOps_drop (e : Nat) (em : Emitter) (g : Nat) : ∀ p ∈ sigOps e em g, ∀ e' g' sl, p = .drop e' g' sl → e' = e := by
+  intro p hp e' g' sl hpe
+  unfold sigOps at hp
+  cases hsg : em.sig g with
+  | none => rw [hsg] at hp; simp at hp
+  | some d =>
+    rw [hsg] at hp
+    simp only [List.mem_append, List.mem_map] at hp
+    rcases hp with hp | ⟨sl', _, rfl⟩
+    · cases hd : d.activation with
+      | none => rw [hd] at hp; simp at hp
+      | some a => rw [hd] at hp; simp at hp; subst hp; cases hpe
+    · cases hpe; rfl
+
+/-- the visits of two signal keys commute -/
+theorem sig_visit_comm (e : Nat) (em : Emitter) (st : State) (g g' : Nat) :
+    delEmitterSig e em (delEmitterSig e em st g) g' = delEmitterSig e em (delEmitterSig e em st g') g := by
+  simp only [delEmitterSig_ops]
+  exact run_comm _ _ (fun p hp q hq s => eop_comm p q e (sigOps_drop e em g p hp) (sigOps_drop e em g' q hq) s) st
+
+theorem delEmitter_via (e : Nat) (st : State) (em : Emitter) (he : st.emitters e = some em) :
+    delEmitter e st = delEmitterVia em.sigKeys e st := by
+  simp [delEmitter, delEmitterVia, he]
+
+/-- **The order in which `~Emitter` visits its signals is immaterial**: for every state, every emitter and any two orders of
+    the same signal keys (insertion order, as in the model, or `memcmp` order of the member-pointer bytes, as in
+    `Map<MemberFuncPtr, SignalData>`) the result is the same state, fault flag included. -/
+theorem dtor_emitter_order_irrelevant (e : Nat) (st : State) (ks ks' : List Nat) (hp : ks.Perm ks') :
+    delEmitterVia ks e st = delEmitterVia ks' e st := by
+  unfold delEmitterVia
+  cases st.emitters e with
+  | none => rfl
+  | some em =>
+    simp only
+    congr 1
+    exact perm_foldl_eq _ (fun b a a' => sig_visit_comm e em b a a') hp st
+
+/-- non-vacuity: an emitter with two connected signals, destroyed visiting them in either order -/
+example : delEmitterVia [0, 1] 0 (connect 0 1 1 0 (connect 0 0 0 0 State.fresh)) =
+    delEmitterVia [1, 0] 0 (connect 0 1 1 0 (connect 0 0 0 0 State.fresh)) :=
+  dtor_emitter_order_irrelevant 0 _ _ _ (List.Perm.swap 1 0 [])
 
 end Nstd.Callback
